@@ -118,8 +118,15 @@ class P(ServeProp):
                 return x
             if echo_sorted(blank_volatile(a)) != echo_sorted(blank_volatile(b)):
                 ra, rb = httpcanon.parse_response(a), httpcanon.parse_response(b)
-                if ra and rb and ra["status"] >= 400 and ra["status"] != 404 and len(a) == len(b) and ra["status"] == rb["status"]:
-                    continue       # error-message bodies quote the scratch directory, which differs between the two runs
+                if ra and rb and ra["status"] >= 400 and ra["status"] != 404 and ra["status"] == rb["status"]:
+                    # error-message bodies quote the scratch directory, which differs between the two runs (".../impl3/w" and ".../impl12/w" do
+                    # not even have the same length): compare with the directory and the two length headers blanked
+                    import re as _re
+                    def scrub(x):
+                        x = _re.sub(rb"/[^ \r\n'\"]*?/impl\d+/w", b"@W@", blank_volatile(x))
+                        return _re.sub(rb"(Content-Length|Content-Range): [^\r\n]*", rb"\1: ", x)
+                    if scrub(a) == scrub(b):
+                        continue
                 fails.append((d["1"], "piecewise-transport-received-%d-of-%d-bytes" % (len(b), len(a))))
         return fails
 
